@@ -187,6 +187,8 @@ class Ctl(Harness):
             add("unc1", 4, 2)
             add("unc1", 2, 2, kinds="all", npt=3)
             add("unc1", 3, 1, cb="pos", target=True)
+            add("unc1", 3, 1, kinds="all", target="inf", npt=2)
+            add("nlub", 2, 1, kinds="all", target="inf", npt=2)
             add("box1", 3, 2, cb="kw", hist=2)
             add("box1out", 3, 1, cb="pos")
             add("box2s", 4, 1, cb="pos", npt=3)
@@ -571,7 +573,10 @@ class Ctl(Harness):
         else:
             options.update(store_history=True)
         target = None
-        if shape["target"]:
+        if shape["target"] == "inf":
+            target = math.inf            # "stop at the first feasible point with a defined objective"
+            options["target"] = target
+        elif shape["target"]:
             target = e.fresh_in("target", -1e6, 1e6)
             options["target"] = target
         tol = 2.0 ** -20
@@ -785,7 +790,7 @@ class Ctl(Harness):
         has_fun = P.get("fun", True)
         nl = P.get("nl", [])
         claims, goals = [], []
-        sig = shape["pb"]
+        sig = shape["pb"] + (":target=inf" if shape["target"] == "inf" else "")
 
         def C(prop, clause, cond, s=None):
             claims.append(Claim(prop, "ctl:" + clause, cond, sig=s or sig))
